@@ -365,7 +365,8 @@ def r4(c):
     def ren(s):
         s = s.replace('"', "'").replace("registry_connector.get()[self.vendor].exit", "block_exit")
         t = {"rule['attrs']['global']": "global", "rule['attrs']['order_reverse']": "order_reverse", "direct_matched": "direct_matched",
-             "rule['attrs']['reverse_regexp'].match(row)": "reverse_matched", "cmd_direct": "cmd_direct", "block_exit": "block_exit",
+             "rule['attrs']['reverse_regexp'].match(row)": "reverse_matched", "rule['attrs']['direct_regexp'].match(row)": "direct_matched",
+             "bool(rule['attrs']['direct_regexp'].match(row))": "direct_matched", "cmd_direct": "cmd_direct", "block_exit": "block_exit",
              "block_exit == row": "is_exit", "row == block_exit": "is_exit"}
         return t.get(s, s)
     env = G.GuardEnv(rename=ren, subst=gm.aliases())
